@@ -5,7 +5,7 @@
 
   Mirrors (after fix b3448e7):
 
-    File_New    : if (len(args) > 0) File_Open(self, args[0], args[1])
+    File_New    : if (len(args) > 0) File_Open(self, args[0], args[1])     (one argument: args[1] raises IndexOutOfBoundsError)
     File_Del    : if (f->file isnt NULL) File_Close(self)
     File_Open   : if (f->file isnt NULL) File_Close(self);  f->file = fopen(name, access);  NULL → throw IOError
     File_Close  : f->file is NULL → throw IOError;  err = fclose(f->file);  f->file = NULL;  err != 0 → throw IOError
@@ -24,7 +24,7 @@ abbrev Byte := UInt8
 abbrev Handle := Nat
 
 inductive Exc where
-  | IOError | FormatError | ValueError
+  | IOError | FormatError | ValueError | IndexOutOfBoundsError
 deriving DecidableEq, Repr, Inhabited
 
 /-- outcome of a library call: a value, a Cello exception, or undefined behaviour in C (only the un-repaired code
@@ -252,7 +252,10 @@ inductive Op where
   | scanInt
 deriving DecidableEq, Repr, Inhabited
 
-/-- does the operation need an open File (every one except open / start_in / destruct / an empty print)? -/
+/-- does the operation need an open File (every one except open / start_in / destruct / an empty print)?
+    (print_to / scan_from check their ARGUMENTS before the File is looked at — src/Show.c print_to_with: too few arguments
+    for the format raise FormatError whether or not the File is open; that is C14's subject.  `.print frags` stands for a
+    call whose arguments were accepted and whose format produced `frags`.) -/
 def Op.needsOpen : Op → Bool
   | .open _ _ | .withEnter | .destruct => false
   | .print [] => false
@@ -299,8 +302,14 @@ structure Multi (σ : Type) where
 
 inductive MOp where
   | new (args : Option (Nat × Mode))     -- `new(File)` / `new(File, name, access)` under a name that is free
+  | new1 (file : Nat)                    -- `new(File, name)`: File_New's `get(args, $I(1))` on a one-element tuple raises
+                                         -- IndexOutOfBoundsError before File_Open is entered
   | del                                  -- `del`: File_Del, then the object is gone
   | op (op : Op)                         -- any operation on an existing object
+  | copy (src : Nat)                     -- `copy(src)` bound to a name that is free: File has no Copy instance, so
+                                         -- copy = assign(alloc(File), src) (src/Alloc.c copy)
+  | assign (src : Nat)                   -- `assign(o, src)`: File has no Assign instance, so assign =
+                                         -- memcpy(self, obj, size(File)) (src/Assign.c assign): the FILE* word is duplicated
 deriving DecidableEq, Repr, Inhabited
 
 section MultiOps
@@ -330,6 +339,10 @@ def Multi.stepR (cfg : Cfg) (s : Multi σ) (o : Nat) : MOp → Option (R σ Val 
     | none =>
       let r : R σ Val := (fileNew io cfg s.lib args).val (fun _ => .unit)
       some (r, match r.out with | .ok _ => true | _ => false)     -- a constructor that throws never returns the object
+  | .new1 _ =>
+    match lookup o s.objs with
+    | some _ => none
+    | none => some (⟨s.lib, none, .raised .IndexOutOfBoundsError, []⟩, false)   -- no stdio call, no object
   | .del =>
     match lookup o s.objs with
     | none => none
@@ -338,6 +351,22 @@ def Multi.stepR (cfg : Cfg) (s : Multi σ) (o : Nat) : MOp → Option (R σ Val 
     match lookup o s.objs with
     | none => none
     | some f => some (step io cfg s.lib f op, true)
+  | .copy src =>                         -- alloc gives zeroed memory, then the memcpy: no File_* function runs, no stdio call
+    match lookup o s.objs, lookup src s.objs with
+    | none, some f => some (⟨s.lib, f, .ok .unit, []⟩, true)
+    | _, _ => none
+  | .assign src =>                       -- memcpy over the target: the handle the target held is overwritten, not closed
+    match lookup o s.objs, lookup src s.objs with
+    | some _, some f => some (⟨s.lib, f, .ok .unit, []⟩, true)
+    | _, _ => none
+
+/-- **the region of known finding KF-C20-copy-aliases-handle**: does this step copy or assign a File while one of the
+    two objects involved is open?  (`copy(src)` with src open: two objects then hold one FILE*; `assign(o, src)` with src
+    open: the same; with `o` open: the handle `o` held is overwritten without fclose.) -/
+def Multi.copiesOpen (s : Multi σ) (o : Nat) : MOp → Bool
+  | .copy src => (s.held src).isSome
+  | .assign src => (s.held src).isSome || (s.held o).isSome
+  | _ => false
 
 def Multi.apply (s : Multi σ) (o : Nat) (r : R σ Val) (keep : Bool) : Multi σ :=
   ⟨r.lib, if keep then insert o r.f s.objs else erase o s.objs, s.log ++ r.calls.map (fun c => (o, c))⟩
@@ -350,6 +379,11 @@ def Multi.step (cfg : Cfg) (s : Multi σ) (o : Nat) (m : MOp) : Multi σ :=
 def Multi.run (cfg : Cfg) : Multi σ → List (Nat × MOp) → Multi σ
   | s, [] => s
   | s, (o, m) :: rest => Multi.run cfg (s.step io cfg o m) rest
+
+/-- the hypothesis "no File object is copied / assigned while open", along a history -/
+def Multi.cleanRun (cfg : Cfg) : Multi σ → List (Nat × MOp) → Bool
+  | _, [] => true
+  | s, (o, m) :: rest => !(s.copiesOpen o m) && Multi.cleanRun cfg (s.step io cfg o m) rest
 
 /-- the calls of object `o` in a tagged log -/
 def proj (o : Nat) (log : List (Nat × Call)) : List Call := (log.filter (fun p => p.1 = o)).map (fun p => p.2)
@@ -383,6 +417,38 @@ def isClose : Call → Bool
   | .on .fclose _ => true
   | _ => false
 
+/-! ### The same specification over HANDLES instead of objects (what the C library sees)
+
+  `track` follows the calls made on behalf of ONE object; it cannot see a handle that two objects hold.  `gtrack live log`
+  follows the whole log of the process with the set of handles that are open (successfully fopened, not fclosed yet):
+  every call other than fopen must be on a handle that is open — never NULL, never a handle that was fclosed — and
+  fclose ends the handle's life, so that one fopen cannot face two fcloses.  `freshCalls` is the one thing the library
+  is entitled to expect of stdio: fopen never hands out a handle that is still open. -/
+def gstep : List Handle → Call → List Handle
+  | live, .fopen _ _ (some h) => h :: live
+  | live, .on .fclose h => live.erase h
+  | live, _ => live
+
+def gok : List Handle → Call → Bool
+  | _, .fopen _ _ _ => true
+  | live, .on _ h => live.contains h
+  | _, .onNull _ => false
+
+def gfresh : List Handle → Call → Bool
+  | live, .fopen _ _ (some h) => !live.contains h
+  | _, _ => true
+
+def gtrack : List Handle → List Call → Option (List Handle)
+  | live, [] => some live
+  | live, c :: cs => if gok live c then gtrack (gstep live c) cs else none
+
+def freshCalls : List Handle → List Call → Bool
+  | _, [] => true
+  | live, c :: cs => gfresh live c && freshCalls (gstep live c) cs
+
+/-- the untagged log -/
+def untag (log : List (Nat × Call)) : List Call := log.map (fun p => p.2)
+
 /-! ### The `with` construct
 
   include/Cello.h:   #define with_in(X, S) for(var X = start_in(S); X isnt NULL; X = stop_in(X))
@@ -393,8 +459,8 @@ def isClose : Call → Bool
     init       var X = start_in(S)   the source expression S is evaluated HERE, once, and its value bound to X
     condition  X isnt NULL           true after the init clause, false after the step clause: the body runs once
     step       X = stop_in(X)        stops the object the loop variable holds; never looks at S again
-  A body that falls off its end or executes `continue` reaches the step clause; `break` and an exception leave the
-  loop without it (the stream stays open: that is what the macro does).  S is an expression and may have side effects:
+  A body that falls off its end or executes `continue` reaches the step clause; `break`, `return` and an exception
+  leave the loop without it (the stream stays open: that is what the macro does — known finding KF-C20-with-early-exit).  S is an expression and may have side effects:
   `with (f in new(File, $S(path), $S("w")))` (the idiom of the documentation of File and Show) constructs a File every
   time it is evaluated.  `WithCfg` records which expression the step clause hands to stop_in, as the translator reads
   it from the header; `WithCfg.reeval` is the variant `X = stop_in(S)`. -/
@@ -423,12 +489,13 @@ deriving DecidableEq, Repr, Inhabited
 /-- how control leaves the body -/
 inductive Leave where
   | fall | cont | brk | throw
+  | ret                                   -- `return` (or `goto` to a label outside) from inside the body
 deriving DecidableEq, Repr, Inhabited
 
 /-- does the step clause run? -/
 def Leave.runsStep : Leave → Bool
   | .fall | .cont => true
-  | .brk | .throw => false
+  | .brk | .throw | .ret => false
 
 /-- statements: an operation on an object, or a with block (bodies nest) -/
 inductive Stmt where
@@ -441,7 +508,7 @@ inductive WEv where
   | eval (src : Src) (res : Option Nat)   -- a source expression was evaluated; `none`: the constructor threw
   | start (x : Nat)                       -- start_in(x); the body is entered with X = x
   | stop (x : Nat)                        -- stop_in(x)
-  | left (how : Leave)                    -- the loop was left by break / an exception: no step clause
+  | left (how : Leave)                    -- the loop was left by break / return / an exception: no step clause
 deriving DecidableEq, Repr, Inhabited
 
 /-- largest object name in use -/
@@ -535,6 +602,20 @@ def execStmt (cfg : Cfg) (w : WithCfg) : Stmt → WSys σ → WSys σ
 def execList (cfg : Cfg) (w : WithCfg) : List Stmt → WSys σ → WSys σ
   | [], s => s
   | st :: rest, s => execList cfg w rest (execStmt cfg w st s)
+end
+
+mutual
+/-- the hypothesis "no File object is copied / assigned while open", along a program (the clauses of `with` never copy) -/
+def cleanStmt (cfg : Cfg) (w : WithCfg) : Stmt → WSys σ → Bool
+  | .op o m, s => !(s.m.copiesOpen o m)
+  | .withIn src body _, s =>
+    let i := initClause io cfg s.m src
+    match i.x with
+    | none => true
+    | some _ => cleanList cfg w body ⟨i.m, s.ev ++ i.evs⟩
+def cleanList (cfg : Cfg) (w : WithCfg) : List Stmt → WSys σ → Bool
+  | [], _ => true
+  | st :: rest, s => cleanStmt cfg w st s && cleanList cfg w rest (execStmt io cfg w st s)
 end
 
 end With
@@ -840,6 +921,7 @@ def Exc.name : Exc → String
   | .IOError => "IOError"
   | .FormatError => "FormatError"
   | .ValueError => "ValueError"
+  | .IndexOutOfBoundsError => "IndexOutOfBoundsError"
 
 def Fn.name : Fn → String
   | .fopen => "fopen" | .fclose => "fclose" | .fseek => "fseek" | .ftell => "ftell" | .fflush => "fflush"
